@@ -35,6 +35,10 @@ from dask_array._core_utils import concatenate_lookup, tensordot_lookup
 # never depends on the legacy import.
 @normalize_token.register(np.ma.masked_array)
 def _normalize_masked_array(x):
+    if isinstance(x, np.ma.core.MaskedConstant):
+        # ``np.ma.masked`` (the meta/value of a fully-masked 0-d result) is a
+        # read-only singleton: even reading ``fill_value`` tries to set attributes.
+        return ("numpy.ma.masked",)
     return (normalize_token(x.data), normalize_token(x.mask), normalize_token(x.fill_value))
 
 
